@@ -103,6 +103,90 @@ def on_disk(t):
         shutil.rmtree(d, ignore_errors=True)
 
 
+# ---------------------------------------------------------------- spellings of the root path (shared by C06 and C13)
+# every spelling designates, FOR THE OPERATING SYSTEM, the directory in which the tree was materialised; the reference is
+# always that tree (the JSON tree / a read through the plain real path), never a lexically normalised path
+ROOT_SPELLINGS = [
+    "real",            # <tmp>/root
+    "slash1", "slash3",                       # trailing slashes
+    "rel", "reldot",                          # root, ./root   (working directory = <tmp>)
+    "dot", "dotdot",                          # <tmp>/./root, <tmp>/x/../root with x a REAL directory
+    "dslash",                                 # <tmp>//real///root : doubled slashes inside
+    "realdot", "realdot_rel",                 # <tmp>/real/./root, real/./root
+    "vialink", "vialink_rel", "vialink_abs",  # <tmp>/link/root with link -> real (relative / absolute target), link/root
+    "rootlink", "rootlink_abs",               # <tmp>/root is itself a symbolic link to the tree
+    "rootlink_dot", "rootlink_slash", "rootlink_rel_slash",    # <tmp>/root/. , <tmp>/root/ , root/   (root a symlink)
+    "linkup_none", "linkup_decoy",            # <tmp>/work/link/../proj with work/link -> ../real/sub: the OS finds real/proj;
+                                              # the lexical collapse work/proj does not exist / is a DIFFERENT tree
+    "linkup_rel", "linkup_reldot", "linkup_dslash",   # work/link/../proj, ./work/link/../proj, <tmp>/work//link/..//proj (decoy present)
+    "firstlink",                              # absolute path through a symbolic link that lives in ANOTHER directory tree (<tmp2>/first -> <tmp>)
+]
+DECOY = {"t": "D", "c": [[b"decoy".hex(), {"t": "R", "d": b"this is another tree".hex(), "m": 0o644}],
+                         [b"sub".hex(), {"t": "D", "c": [[b"x".hex(), {"t": "R", "d": b"x".hex(), "m": 0o755}]]}]]}
+
+
+def gen_spelling(rng, plain=0.5):
+    return "real" if rng.random() < plain else rng.choice(ROOT_SPELLINGS[1:])
+
+
+@contextmanager
+def spelled_root(t, spelling):
+    """materialise t in a fresh temporary directory <tmp>, make <tmp> the working directory, and yield
+    (path in the requested spelling, <tmp>, plain real path of the tree); everything is undone afterwards"""
+    tmp = tempfile.mkdtemp(prefix="swhv").encode()
+    cwd = os.getcwd()
+    extra = []
+    j = os.path.join
+    try:
+        os.chdir(tmp)
+        if spelling.startswith("vialink"):
+            os.mkdir(j(tmp, b"real"))
+            real = j(tmp, b"real", b"root")
+            os.symlink(j(tmp, b"real") if spelling == "vialink_abs" else b"real", j(tmp, b"link"))
+            path = b"link/root" if spelling == "vialink_rel" else j(tmp, b"link", b"root")
+        elif spelling.startswith("rootlink"):
+            real = j(tmp, b"real_root")
+            os.symlink(real if spelling == "rootlink_abs" else b"real_root", j(tmp, b"root"))
+            path = {"rootlink_dot": j(tmp, b"root") + b"/.", "rootlink_slash": j(tmp, b"root") + b"/",
+                    "rootlink_rel_slash": b"root/"}.get(spelling, j(tmp, b"root"))
+        elif spelling.startswith("linkup"):
+            os.makedirs(j(tmp, b"real", b"sub"))
+            os.mkdir(j(tmp, b"work"))
+            real = j(tmp, b"real", b"proj")
+            os.symlink(b"../real/sub", j(tmp, b"work", b"link"))
+            if spelling != "linkup_none":
+                materialise(DECOY, j(tmp, b"work", b"proj"))
+            path = {"linkup_rel": b"work/link/../proj", "linkup_reldot": b"./work/link/../proj",
+                    "linkup_dslash": tmp + b"/work//link/..//proj"}.get(spelling, tmp + b"/work/link/../proj")
+        elif spelling.startswith("realdot") or spelling == "dslash":
+            os.mkdir(j(tmp, b"real"))
+            real = j(tmp, b"real", b"root")
+            path = {"realdot": tmp + b"/real/./root", "realdot_rel": b"real/./root"}.get(spelling, tmp + b"//real///root")
+        elif spelling == "firstlink":
+            real = j(tmp, b"root")
+            path = real
+            # (the link lives in a second temporary directory, never in "/": the check writes nothing outside its own
+            # temporary directories)
+            other = tempfile.mkdtemp(prefix="swhvl").encode()
+            extra.append(other)
+            lnk = j(other, b"first")
+            os.symlink(tmp, lnk)
+            path = j(lnk, b"root")
+        else:
+            real = j(tmp, b"root")
+            if spelling == "dotdot":
+                os.mkdir(j(tmp, b"x"))
+            path = {"slash1": real + b"/", "slash3": real + b"///", "rel": b"root", "reldot": b"./root",
+                    "dot": tmp + b"/./root", "dotdot": tmp + b"/x/../root"}.get(spelling, real)
+        materialise(t, real)
+        yield path, tmp, real
+    finally:
+        os.chdir(cwd)
+        for x in extra:
+            shutil.rmtree(x, ignore_errors=True)
+        shutil.rmtree(tmp, ignore_errors=True)
+
+
 @contextmanager
 def shuffled_scandir(seed):
     """os.scandir returns the entries in an order chosen by our PRNG (the kernel's
